@@ -4,6 +4,8 @@ L2 (correspondence with `Model/Failures.lean` + the `_on_done` part of `Model/Du
   A. `set_output` + `Evaluator._on_done` on constructed HPOJobs      vs `onDoneObjective ∘ standardizeOutput`
   B. `CBO._tell(results)` (what it hands to the public `Optimizer.tell`) vs `cboTell`
   C. `Optimizer._filter_failures(yi)` scalar and per-objective           vs `filterFailures`
+  C'. `Optimizer.tell` used directly with `n_initial_points=0` (fits from the start): ok / fit input /
+     `ExhaustedFailures` / the marker reaching the estimator                vs `optTell`
   D. full `CBO.search()` with a recording sklearn regressor as surrogate and the identity scaler:
      every `Optimizer.tell` argument and every `y` that reaches `estimator.fit` vs `searchTell`
   E. `RegularizedEvolution.search()`: proposals are fresh samples while the model's population is
@@ -32,7 +34,9 @@ from .common import HarnessError, VERIF, rat, unrat
 PROP = "C06"
 REL_TOL = Fraction(1, 10**12)
 
-DEFAULTS = {"cls": "RandomSearch", "nobj": 1, "kind": "str", "policy": "min", "surrogate": "ET", "workers": 1}
+DEFAULTS = {"cls": "RandomSearch", "nobj": 1, "kind": "str", "policy": "min", "surrogate": "ET", "workers": 1,
+            "strategy": "cl_max", "max_failures": 100}
+STRATEGIES = ["cl_max", "cl_min", "cl_mean", "qUCB"]  # topk / boltzmann are C02's subject
 KINDS = ["str", "nan", "inf", "-inf", "nan-in-tuple"]
 POLICY_MAP = {"min": "max", "mean": "mean", "ignore": "ignore"}
 
@@ -123,6 +127,10 @@ def make_search(case, run, log_dir, surrogate_obj=None, extra=None):
         kw["surrogate_model_kwargs"] = {"n_estimators": 5}
     if sm == "GP" or surrogate_obj is not None:
         kw["acq_func"] = "UCB"  # default "UCBd" + GP is a C02 defect
+    if case.get("strategy", "cl_max") != "cl_max":
+        kw["multi_point_strategy"] = case["strategy"]
+    if case.get("max_failures", 100) != 100:
+        kw["max_failures"] = case["max_failures"]
     if extra:
         kw.update(extra)
     return CBO(p, ev, **kw)
@@ -199,8 +207,8 @@ def pattern_tag(pattern):
 
 def options_tag(case):
     parts = ["moo" if case["nobj"] > 1 else "single"]
-    for k in ("kind", "policy", "surrogate", "workers"):
-        if case[k] != DEFAULTS[k] and (case["cls"] == "CBO" or k in ("kind", "workers")):
+    for k in ("kind", "policy", "surrogate", "workers", "strategy", "max_failures"):
+        if case.get(k, DEFAULTS[k]) != DEFAULTS[k] and (case["cls"] == "CBO" or k in ("kind", "workers")):
             parts.append(f"{k}={case[k]}")
     parts.append(pattern_tag(case["pattern"]))
     return ",".join(parts)
@@ -258,8 +266,8 @@ def shrink_case(case, clause):
         return clause in {cl for cl, _ in oracle_case(c, obs)}
 
     cur = dict(case)
-    for k in ("cls", "surrogate", "policy", "workers", "kind", "nobj"):
-        if cur[k] != DEFAULTS[k]:
+    for k in ("cls", "surrogate", "policy", "workers", "kind", "nobj", "strategy", "max_failures"):
+        if cur.get(k, DEFAULTS[k]) != DEFAULTS[k]:
             cand = dict(cur, **{k: DEFAULTS[k]})
             if cand["kind"] == "nan-in-tuple" and cand["nobj"] == 1:
                 continue
@@ -462,6 +470,48 @@ def part_tell_filter(ck, reqs, post):
             post.append(("filter", case, got))
     finally:
         shutil.rmtree(tmp, ignore_errors=True)
+
+
+def part_opttell(ck, reqs, post):
+    """`Optimizer.tell` without `CBO._tell` in front, fitting from the start (n_initial_points=0):
+    the only way to reach `ExhaustedFailures` (theorem C06_exhausted_exact)"""
+    from deephyper.skopt import Optimizer
+
+    rng = ck.rng
+    for _ in range(ck.pick(60, 500)):
+        pol = rng.choice(["mean", "max", "ignore"])
+        mf = rng.choice([1, 2, 3, 4])
+        nprev = rng.choice([0, 0, 1, 2])
+        k = rng.randint(1, 5)
+        pf = rng.choice([1.0, 1.0, 0.6, 0.3])
+
+        def draw(n, allow_fail=True):
+            return ["F" if (allow_fail and rng.random() < pf) else float(rng.randint(-6, 6)) / rng.choice([1, 2, 4]) for _ in range(n)]
+
+        prev, ys = draw(nprev), draw(k)
+        _FITS.clear()
+        opt = Optimizer([(0.0, 1.0)], base_estimator=_spy_regressor(), n_initial_points=0, acq_func="LCB", acq_optimizer="sampling",
+                        acq_optimizer_kwargs={"filter_failures": pol, "max_failures": mf, "n_points": 10},
+                        objective_scaler="identity", random_state=rng.randint(0, 999))
+        got = {"err": None, "fit": None}
+        try:
+            if prev:
+                try:
+                    opt.tell([[0.01 * (i + 1)] for i in range(len(prev))], list(prev), fit=False)
+                except Exception:
+                    continue
+            _FITS.clear()
+            opt.tell([[0.5 + 0.01 * i] for i in range(k)], list(ys))
+            got["fit"] = _FITS[0] if _FITS else None
+        except Exception as e:
+            got["err"] = type(e).__name__
+        w = lambda v: None if v == "F" else rat(v)
+        case = {"part": "opttell", "policy": pol, "max_failures": mf, "prev": [w(v) for v in prev], "ys": [w(v) for v in ys]}
+        ck.case(case, nontrivial="F" in ys)
+        allv = prev + ys
+        reqs.append({"op": "opttell", "policy": pol, "max_failures": mf, "n_init": 0, "prev": case["prev"], "ys": case["ys"],
+                     "scaled": [rat(v) for v in allv if v != "F"]})
+        post.append(("opttell", case, got))
 
 
 # --------------------------------------------------------------------------- part D: what reaches the surrogate
@@ -670,7 +720,16 @@ def gen_matrix(ck):
                             if rng.random() < 0.3:
                                 pattern[0] = 0
                             cases.append({"cls": "CBO", "nobj": nobj, "kind": kind, "policy": pol, "surrogate": sm,
-                                          "workers": workers, "pattern": pattern, "seed": rng.randint(0, 99), "n_init": rng.choice([1, 2, 3])})
+                                          "workers": workers, "pattern": pattern, "seed": rng.randint(0, 99), "n_init": rng.choice([1, 2, 3]),
+                                          "strategy": rng.choice(STRATEGIES) if workers > 1 else "cl_max"})
+    # (2b) max_failures reached and exceeded: failures only, and a success followed by >= max_failures failures
+    for _ in range(ck.pick(8, 60)):
+        mf = rng.choice([1, 2, 3])
+        L = mf + rng.randint(1, 4)
+        pattern = [0] * L if rng.random() < 0.5 else [1] * rng.randint(1, 2) + [0] * L
+        cases.append({"cls": "CBO", "nobj": rng.choice([1, 2]), "kind": rng.choice(KINDS[:4]), "policy": rng.choice(["min", "mean"]),
+                      "surrogate": "ET", "workers": rng.choice([1, 2]), "pattern": pattern, "seed": rng.randint(0, 99),
+                      "n_init": rng.choice([1, 2]), "strategy": "cl_max", "max_failures": mf})
     # (3) other search classes
     for _ in range(ck.pick(30, 400)):
         L = rng.randint(2, ck.pick(6, 10))
@@ -751,6 +810,10 @@ def part_matrix(ck, extra_cases=()):
         ck.count(f"search:policy={case['policy']}" if case["cls"] == "CBO" else "search:policy=-")
         ck.count(f"search:nobj={case['nobj']}:workers={case['workers']}")
         ck.count("search:" + pattern_tag(case["pattern"]))
+        if case.get("strategy", "cl_max") != "cl_max":
+            ck.count("search:strategy=" + case["strategy"])
+        if case.get("max_failures", 100) != 100:
+            ck.count("search:max_failures<=3,consecutive-failures>=" + str(case["max_failures"]))
         ck.count(f"search:len={len(case['pattern'])}")
         if info.get("relabel"):
             ck.count("search:relabelled-run-compared")
@@ -860,6 +923,15 @@ def compare(ck, kind, case, got, rep):
                     bad.append({"impl_fit": b["fit"], "model_fit": m["fit"]})
                     break
         return bad or None
+    if kind == "opttell":
+        want = {None: None, "exhausted": "ExhaustedFailures", "markerToSurrogate": "ValueError"}.get(rep["err"], "?")
+        ck.count("opttell:" + (rep["err"] or "ok"))
+        if got["err"] != want:
+            return {"impl": got, "model": rep}
+        if rep["err"] is None and rep["fit"] is not None:
+            if got["fit"] is None or len(got["fit"]) != len(rep["fit"]) or not all(_close(x, unrat(q)) for x, q in zip(got["fit"], rep["fit"])):
+                return {"impl": got, "model": rep}
+        return None
     if kind == "regevo":
         pop = rep["pop"]
         known = got["configs"]
@@ -894,6 +966,7 @@ def run(ck):
     _one_thread()
     part_ondone(ck, reqs, post)
     part_tell_filter(ck, reqs, post)
+    part_opttell(ck, reqs, post)
     part_surrogate(ck, reqs, post)
     part_regevo(ck, reqs, post)
     with ck.driver() as d:
